@@ -224,7 +224,10 @@ def check_case(case):
     if oa.kind != "ok":
         if type(oa.exc) is not type(ob.exc):
             v.fail("solvability-differs", f"original: {oa.brief()}; transformed: {ob.brief()}", sig="exc-type")
-        v.inconclusive = "both descriptions fail to solve (reported by C06)"
+        if small:
+            v.fail("solve-raises", "a well-formed stopping game is not solved: " + oa.brief(), sig=f"{oa.kind}@{oa.where}")
+        else:
+            v.inconclusive = "both board descriptions fail to solve"
         return v
     fa, ra, rwa, pa = oa.result[0], oa.result[1], oa.result[2], oa.result[3]
     fb, rb, rwb, pb = ob.result[0], ob.result[1], ob.result[2], ob.result[3]
@@ -297,6 +300,25 @@ def check_case(case):
                     ok_near = False
                     break
             if ok_near:
+                # K1 also requires that each run's list IS the arg-opt of its own reported values rounded to
+                # 6 digits (the rounding split is the only thing that went "wrong"); otherwise something else
+                # than rounding decided the list
+                def argopt(entries, vals):
+                    if not entries:
+                        return []
+                    rv = [round(vals[t_], 6) for _, t_ in entries]
+                    best = max(rv) if pl == P1 else min(rv)
+                    if pl == P1:
+                        best = max(best, 0)
+                    return [l_ for (l_, _), r_ in zip(entries, rv) if r_ == best]
+                if kind == "reachability":
+                    ea, eb = game["transition_list"][s], tlist
+                else:
+                    ea = cga["transition_list"][s]
+                    eb = cgb["transition_list"][pi[s]]
+                if argopt(ea, vals_a) != sa[s] or argopt(eb, vals_b) != sb[pi[s]]:
+                    ok_near = False
+            if ok_near:
                 if kind == "reachability" and pl == P1:
                     near_reach_p1 = True
                 if kind == "final":
@@ -309,6 +331,8 @@ def check_case(case):
                                                            f"{y}, expected {want} (transformation {t['which']}); original "
                                                            f"list {game['transition_list'][s]}, transformed {tlist}",
                        sig=f"{kind}:{pl}")
+    cga = exact.conditioned_game(game, ra, pa, prune)
+    cgb = exact.conditioned_game(tgame, rb, pb, prune)
     compare("reachability", ra, rb, pa, pb, ptol)
     if not near_reach_p1:
         scope = set(range(n))
